@@ -18,6 +18,9 @@ from excel2pycl.src.context import Context  # noqa: E402
 from excel2pycl.src.translators.cell_translator import CellTranslator  # noqa: E402
 
 
+_NUMBER = __import__('re').compile(r'\d+(\.\d+)?([eE][+-]?\d+)?')
+
+
 class TranslateMonitor:
     _installed = None
 
@@ -58,7 +61,13 @@ class TranslateMonitor:
             tok, rest = orig(cls, expression, in_cell)
             if tok is not None and mon._lex is not None and cls.__name__ != 'WhitespaceToken':
                 if isinstance(rest, str) and expression.endswith(rest):
-                    mon._lex.append(expression[:len(expression) - len(rest)])
+                    piece = expression[:len(expression) - len(rest)]
+                    mon._lex.append(piece)
+                    if cls.__name__ == 'LiteralToken' and piece[:1].isdigit() and not _NUMBER.fullmatch(piece):
+                        # a numeric literal is digits[.digits][e[sign]digits]: a piece like "2e" or "1.5e+" swallowed a character
+                        # that is not part of any number (it vanishes from the formula without breaking the piece count)
+                        mon.r.counters['numeric_literal_shape_broken'] += 1
+                        mon.events.append({'type': 'literal-shape', 'text': expression, 'piece': piece})
                 else:
                     mon._lex.append(None)
             return tok, rest
